@@ -45,8 +45,12 @@ FailChoices(n) ==
   ELSE { [step |-> n, idx |-> 0] }
 FailLoc(f) == IF f.step = "mounts_mkdir" THEN "mount(mkdir)" ELSE CodeLoc(f.step)
 
+\* the credential / gid-mapping dimension (LaunchSteps!MkOptX) only touches the setgroups step, whose
+\* place does not depend on ptrace, stop or pivot: it is multiplied into the credential sites without those
+XOk(s, x) == x = 0 \/ (Bit(s, 0) /\ ~Bit(s, 4) /\ ~Bit(s, 5) /\ ~Bit(s, 8))
+
 Init ==
-  /\ opt \in { MkOpt(s, r) : s \in Sites, r \in Rows }
+  /\ opt \in UNION { { MkOptX(s, r, y) : r \in Rows, y \in { z \in 0..7 : XOk(s, z) } } : s \in Sites }
   /\ lsb \in Lsbs
   /\ path = ChildPath(opt)
   /\ fail = NoFail
